@@ -329,6 +329,30 @@ func c10Build() *c10World {
 			fetch := func(string) ([]byte, error) { return c09CertBytes, nil }
 			e.Verify(time.Unix(c09T0, 0), fetch, c10DiscardLog)
 		}})
+	// ... and every Cache-Control value of up to 4 (quick) / 5 (thorough) characters over the characters the
+	// directive grammar distinguishes (token character, '=', DQUOTE, ',', SP, backslash) on a really signed 1b3
+	// exchange: the storability parser runs only after the signature has been accepted
+	ccAlpha := []byte{'a', '=', '"', ',', ' ', '\\'}
+	w.targets = append(w.targets, &c10Target{name: "Exchange.Verify(validly signed 1b3 exchange, any Cache-Control value)",
+		gen: func(c *mc.Ctx) ([]byte, string) {
+			n := c.Free(c.Pick(5, 6), "len")
+			v := make([]byte, n)
+			for i := range v {
+				v[i] = ccAlpha[c.Free(len(ccAlpha), "ch")]
+			}
+			return v, fmt.Sprintf("signed:1b3:cache-control=%q", v)
+		},
+		run: func(in []byte) {
+			right, _ := refpolicy.IntegrityFor("1b3")
+			cs := &c09Case{ver: 2, reqURL: c09ReqURLs[0], method: "GET", status: 200, ctype: true, cc: []string{string(in)},
+				sigs: []c09Sig{{tm: c09Time{"default", 1000, 1000, 0}, validity: c09ValidityAlts(c09ReqURLs[0])[0].url, integrity: right}}}
+			e, _, err := c09Build(cs, 1)
+			if err != nil {
+				return
+			}
+			fetch := func(string) ([]byte, error) { return c09CertBytes, nil }
+			e.Verify(time.Unix(c09T0, 0), fetch, c10DiscardLog)
+		}})
 	// --- raw CBOR decoder methods, structured headers, integrity-block detection: raw strings
 	rawArt := []*c10Artifact{{name: "raw", data: nil}}
 	w.targets = append(w.targets, &c10Target{name: "cbor.Decoder(all methods)", artifacts: rawArt, run: func(in []byte) {
@@ -581,7 +605,7 @@ func init() {
 	register(&mc.Property{
 		ID:          "C10",
 		Level:       "model_checking",
-		Rule:        "choice-tree enumeration of hostile inputs for every parser entry point (bundle.Read, ReadExchange, Exchange.Verify with hostile file / hostile cert chain, ReadCertChain, bundle signature NewVerifier+VerifyExchange on properly signed hostile subsets, both structured-header parsers, MI decoder for both drafts on hostile streams and on hostile digest-header strings, Exchange.Verify with a hostile Signature header string, Exchange.Verify on really signed exchanges of every version with every status 100..999 (in memory and re-read), bundle.Read with a hostile variants-value string in a consistently re-encoded b1 index, every cbor.Decoder method, integrity-block detection on a reader and on a file), executed in watchdog-supervised workers under ulimit -v: valid artifacts of every format with one mutation (every CBOR length/count head x 11 boundary values, every fixed-width length field x boundary values, truncation at every offset, every byte x 8 values quick / 256 thorough, every byte deleted, one of 13 bytes inserted at every position) and all raw strings up to 3 bytes over a 21-byte alphabet (thorough: all strings <= 2 bytes, <= 4 reduced) with integrity-block tails. Monitor: returns (no panic, no crash, no hang) and heap allocation <= 64 MiB + 64 x len(input) (runtime/metrics). Every case is non-trivial (the monitor applies to all); distinct by (entry point, input).",
+		Rule:        "choice-tree enumeration of hostile inputs for every parser entry point (bundle.Read, ReadExchange, Exchange.Verify with hostile file / hostile cert chain, ReadCertChain, bundle signature NewVerifier+VerifyExchange on properly signed hostile subsets, both structured-header parsers, MI decoder for both drafts on hostile streams and on hostile digest-header strings, Exchange.Verify with a hostile Signature header string, Exchange.Verify on really signed exchanges of every version with every status 100..999 (in memory and re-read) and, for 1b3, with every Cache-Control value of <= 4 (thorough 5) characters over {a = \" , SP \\}, bundle.Read with a hostile variants-value string in a consistently re-encoded b1 index, every cbor.Decoder method, integrity-block detection on a reader and on a file), executed in watchdog-supervised workers under ulimit -v: valid artifacts of every format with one mutation (every CBOR length/count head x 11 boundary values, every fixed-width length field x boundary values, truncation at every offset, every byte x 8 values quick / 256 thorough, every byte deleted, one of 13 bytes inserted at every position) and all raw strings up to 3 bytes over a 21-byte alphabet (thorough: all strings <= 2 bytes, <= 4 reduced) with integrity-block tails. Monitor: returns (no panic, no crash, no hang) and heap allocation <= 64 MiB + 64 x len(input) (runtime/metrics). Every case is non-trivial (the monitor applies to all); distinct by (entry point, input).",
 		Assumptions: []string{"the allocation bound's constant covers the two 3-byte-length prologue buffers (2 x 16 MiB) the signed-exchange format itself allows", "cbor.Deterministic is not an entry point of this property (its refusal-by-panic is judged under C13)"},
 		Harnesses:   []*mc.Harness{h},
 		Guard: func(s map[string]*mc.Stats) error {
